@@ -164,6 +164,44 @@ def other_thread_cases():
     finally:
         done.set()
         th.join(5)
+    # the MAIN (parent-less) greenlet of another thread, while that thread runs in it, and the same from inside a
+    # non-main greenlet of this thread: an error in both cases, never the caller's own stack
+    box2 = {}
+    ready2, done2 = threading.Event(), threading.Event()
+
+    def t3():
+        box2["main"] = greenlet.getcurrent()
+        ready2.set()
+        done2.wait(10)
+    th2 = threading.Thread(target=t3, daemon=True)
+    th2.start()
+    ready2.wait(10)
+    try:
+        def observe(where):
+            with warnings.catch_warnings(record=True):
+                warnings.simplefilter("always")
+                st = stackscope.extract(box2["main"])
+            if st.frames or st.error is None:
+                bad.append("main greenlet of another thread, running (observed from %s): frames %s error %r (expected an error and no frames)"
+                           % (where, [f.funcname for f in st.frames], st.error))
+        observe("this thread's main greenlet")
+        g = greenlet.greenlet(lambda: observe("a non-main greenlet of this thread"))
+        g.switch()
+    finally:
+        done2.set()
+        th2.join(5)
+    # this thread's own main greenlet, extracted from a child greenlet: it is suspended, its frames are this thread's
+    mine = greenlet.getcurrent()
+    res = []
+
+    def from_child():
+        with warnings.catch_warnings(record=True):
+            warnings.simplefilter("always")
+            res.append(stackscope.extract(mine))
+    greenlet.greenlet(from_child).switch()
+    if not res or res[0].error is not None or not res[0].frames or res[0].frames[-1].funcname != "other_thread_cases":
+        bad.append("own main greenlet seen from a child: frames %s error %r" % (
+            [f.funcname for f in res[0].frames][-3:] if res else None, res[0].error if res else None))
     return bad
 
 
